@@ -137,14 +137,25 @@ def run_pending_signals(vt):
         if callable(h):
             try:
                 h(sig, None)
-            except BaseException as exc:
-                # The traceback of an exception raised by a signal handler
-                # inside Connection.send holds a frame with a BytesIO whose
-                # buffer is still exported; *collecting* that cycle crashes
-                # CPython 3.12.1 ("deallocated BytesIO object has exported
-                # buffers").  Keeping the exception alive keeps the cycle
-                # from ever becoming garbage.
-                _IMMORTAL.append(exc)
+            except BaseException:
+                # The handler's exception is about to unwind through
+                # Connection.send: the frames on the stack hold a memoryview
+                # exported by the pickler's BytesIO, the traceback will keep
+                # them in a reference cycle, and *collecting* a BytesIO whose
+                # buffer is still exported crashes CPython 3.12.1.  Pin just
+                # those buffer objects (a few KB) so they never die; the rest
+                # of the cycle (worker, arenas, fds) stays collectable.
+                import io
+                f = _sys._getframe()
+                while f is not None:
+                    for v in list(f.f_locals.values()):
+                        if isinstance(v, memoryview):
+                            _IMMORTAL.append(v)
+                            if isinstance(v.obj, io.BytesIO):
+                                _IMMORTAL.append(v.obj)
+                        elif isinstance(v, io.BytesIO):
+                            _IMMORTAL.append(v)
+                    f = f.f_back
                 raise
 
 
